@@ -588,6 +588,19 @@ func deviationCases(thorough bool) []caseRec {
 		{"add-default-to-container", cont, "", "deviate add { default dv; }", "", "error"},
 		{"add-units-to-list", list, "", "deviate add { units u; }", "", "error"},
 		{"add-type", leaf, "", "deviate add { type int8; }", "", "error"},
+		// deviate add carries units, must, unique, default, config, mandatory, min- and max-elements only
+		// (RFC 6020 7.18.3.2): anything else the target's node type would take is refused all the same
+		{"add-status", leaf, "", "deviate add { status obsolete; }", "", "error"},
+		{"add-presence", cont, "", "deviate add { presence \"x\"; }", "", "error"},
+		{"add-if-feature", leaf, "", "deviate add { if-feature tf; }", "", "error"},
+		{"add-child-leaf", cont, "", "deviate add { leaf smuggled { type string; } }", "", "error"},
+		{"add-description", leaf, "", "deviate add { description \"d\"; }", "", "error"},
+		{"add-when", leaf, "", "deviate add { when \"../inner2\"; }", "", "error"},
+		{"add-key", list, "", "deviate add { key u1; }", "", "error"},
+		{"add-ordered-by", ll, "", "deviate add { ordered-by user; }", "", "error"},
+		{"add-reference", cont, "", "deviate add { reference \"r\"; }", "", "error"},
+		{"replace-status", leaf, " status current;", "deviate replace { status obsolete; }", "", "error"},
+		{"delete-description", leaf, " description \"d\";", "deviate delete { description \"d\"; }", "", "error"},
 		{"replace-type", "leaf x { %s }", "type string;", "deviate replace { type int8; }", "type int8;", "ok"},
 		{"replace-type-restricted", "leaf x { %s }", "type string;", "deviate replace { type string { length \"1..3\"; } }", "type string { length \"1..3\"; }", "ok"},
 		{"replace-default", leaf, " default old;", "deviate replace { default new; }", " default new;", "ok"},
